@@ -828,6 +828,8 @@ def _crash():
                      covers_required=False, cost=(n + 2) * (60 if dq else 10))
         # extend, rebuild strategy: receiver of 8, identity tables, hint far above
         for tag, keys in (("ab", [8, 9]), ("xa", [3, 8])):
+            if dq and tag == "xa":
+                continue    # measured: runs out of memory (40 GB) after 5 min of symbolic execution
             t = QUICK if (tag == "ab" and not dq) else THOROUGH
             inst(f"crash_{kind}_extend_n8_m2_{tag}_far_rebuild",
                  f"crash::crash_extend::<{ty}, 8, 2, {seq_of(keys)}>(Tables::Identity, bulk::H_FAR)", kind, 10,
@@ -917,7 +919,7 @@ def _hasher():
                  f"bulk::append::<{ty}, {n}, {m}, {seq_of(keys)}>(Pre::Inv, Tables::Any, step::ALL)",
                  kind, n + m, {"C18": t}, "STEP",
                  meta=dict(op="append", kind=kind, n=n, m=m, other_keys=keys, pre="inv", group="all", hasher="per-instance key"),
-                 covers_required=False, cost=(n + m) * (15 if dq else 4))
+                 covers_required=False, cost=(n + m) * (15 if dq else 4), mem=8)
         for n in (1, 2, 3):
             t = tq(n, 1 if dq else 2, 3)
             inst(f"eq_{kind}_n{n}_m{n}", f"misc::eq2::<{ty}, {n}, {n}>()", kind, n, {"C18": t, "C14": t}, "EQ",
